@@ -179,7 +179,11 @@ func (n *DLQHandlerNode) Nack(msg *Message, nackMetadata NackMetadata) error {
 	writeTime := time.Now()
 	err = n.Handler.Write(msg.Ctx, dlqRecord)
 	if err != nil {
-		return err
+		// A record that could not be written to the DLQ is lost unless the
+		// pipeline stops for good: restarting would only re-read the record
+		// and fail on the same DLQ again. Mark the error fatal so the pipeline
+		// degrades instead of recovering (the arch-v2 engine does the same).
+		return cerrors.FatalError(err)
 	}
 	n.Timer.Update(time.Since(writeTime))
 	n.Histogram.Observe(dlqRecord)
